@@ -34,6 +34,9 @@ LIB = [
     rule(cplx("path", X, Y), C("edge", X, Y)),
     rule(cplx("path", X, Y), AND(C("edge", X, Z), C("path", Z, Y))),
     fact("zero"),
+    # multi-answer predicates whose answers come from ONE clause body (a disjunction / a delegate), not from several clauses
+    rule(cplx("d", X), OR(U(X, i(1)), U(X, i(2)), U(X, i(3)))),
+    rule(cplx("dn", X), C("n", X)),
 ]
 
 GROUND_LISTS = [lst([i(1), i(2), i(3)]), lst([a, b]), EMPTY, lst([i(2)]), lst([i(3), i(1), i(3)])]
@@ -53,8 +56,8 @@ class Gen:
         r = self.rng
         x = r.random()
         if x < 0.34:
-            kind = r.choice(["n", "n", "e", "k", "edge", "path", "zero", "mem", "len", "app", "l"])
-            if kind in ("n", "e", "k", "l"): return C(kind, self.val(vs, 0.8))
+            kind = r.choice(["n", "n", "e", "k", "edge", "path", "zero", "mem", "len", "app", "l", "d", "dn"])
+            if kind in ("n", "e", "k", "l", "d", "dn"): return C(kind, self.val(vs, 0.8))
             if kind in ("edge", "path"): return C(kind, self.val(vs, 0.7), self.val(vs, 0.7))
             if kind == "zero": return C("zero")
             if not self.lists: return C("n", self.val(vs, 0.8))
@@ -142,7 +145,7 @@ def single_query_case(rules, qterms, nasks):
 
 # ---------- bounded-exhaustive small shapes: a($X) :- BODY.  a(9).  over a goal alphabet ----------
 def alphabet(allow_cut=True, allow_not=True, allow_print=True):
-    g = [C("n", X), C("e", X), U(X, i(2)), bip("greater_than", X, i(1)), FAIL, C("n", Y), U(Y, X)]
+    g = [C("n", X), C("e", X), U(X, i(2)), bip("greater_than", X, i(1)), FAIL, C("n", Y), U(Y, X), C("d", X), C("dn", Y)]
     if allow_cut: g.append(CUT)
     if allow_print: g.append(PRINT(atom("%s;"), X))
     if allow_not: g.append(NOT(C("e", X)))
@@ -156,6 +159,6 @@ def small_bodies(alpha, maxlen=3):
     return out
 
 def small_program(body, second=True):
-    rules = list(LIB[:5]) + [rule(cplx("a", X), body)]
+    rules = list(LIB[:5]) + list(LIB[-2:]) + [rule(cplx("a", X), body)]
     if second: rules.append(fact("a", i(9)))
     return rules
